@@ -55,8 +55,12 @@ LAYOUTS = {
     'bk': (lambda K: (5, K), [1, -1]),
     'kbxy': (lambda K: (K, 2, 3, 2), [0, -4]),
     'xky': (lambda K: (3, K, 4), [1, -2]),
+    # level axis at position 2, 3 / last (a moveaxis round trip is only self-inverse for 0 and 1)
+    'xyk': (lambda K: (3, 4, K), [2, -1]),
+    'bxky': (lambda K: (2, 3, K, 2), [2, -2]),
+    'bxyk': (lambda K: (2, 2, 3, K), [3, -1]),
 }
-ALT = ['bkxy', 'k', 'bk', 'kbxy', 'xky']
+ALT = ['bkxy', 'xyk', 'k', 'bxky', 'bk', 'kbxy', 'bxyk', 'xky']
 
 
 # ----------------------------------------------------------------------------------------------
